@@ -56,6 +56,18 @@ def run_posctl(ctx, rule, what):
         n = len(P.statics)
     elif what == "aborts":
         n = sum(1 for f in P.fns.values() for b in f.cfg.reachable if f.blocks[b]["term"]["k"] == "assert")
+    elif what == "u8-tables":
+        n = 0
+        for f in P.fns.values():
+            from ..core.sym import evaluate, strip_sites
+
+            ev = evaluate(f)
+            for bb, s in ev.sites.items():
+                if s.callee[0] in ("slice::<impl [T]>::get", "slice::<impl [T]>::get_mut") and len(s.args) == 2:
+                    N = F.table_len(s.args[0])
+                    hi = F.index_upper_bound(strip_sites(s.args[1]), P)
+                    if N is not None and hi is not None and hi >= N:
+                        n += 1
     elif what == "clock":
         n = len([s for s in F.effect_sites(P, P.fns.values()) if s[0] == "clock"])
     else:
